@@ -140,6 +140,11 @@ fn main() {
     // Termination monitor for every property: a single monitored call into the library that
     // burns more than the budget of *CPU time* (not wall time) is reported as not terminating.
     // C04 and C06 start their own, with tighter budgets and the input bytes as witness.
+    // A call that blocks for good burns no CPU: for the properties whose calls perform no I/O, two
+    // minutes of wall time inside one call with less than a second of CPU time is a verdict too.
+    if !matches!(prop.as_str(), "C15" | "C17" | "C18") {
+        mon::BLOCKED_AFTER_WALL_S.store(120, std::sync::atomic::Ordering::Relaxed);
+    }
     if prop != "C04" && prop != "C06" {
         let (p, t, sd) = (prop.clone(), tier, seed);
         mon::start_cpu_watchdog(GENERIC_CPU_BUDGET_S, move |op, family, input, cpu| {
